@@ -111,6 +111,18 @@ func (s *btScn) keep(line map[string]any, pendingBefore bool, t1 int64) bool {
 	return true
 }
 
+// call runs f and reports whether it returned within the watchdog (nobody reads the inbox meanwhile)
+func (s *btScn) call(f func()) bool {
+	done := make(chan struct{})
+	go func() { f(); close(done) }()
+	select {
+	case <-done:
+		return true
+	case <-time.After(btWatchdog * time.Millisecond):
+		return false
+	}
+}
+
 func (s *btScn) queue(dp, gap int64, fail, start bool) {
 	if s.cut {
 		return
@@ -118,12 +130,19 @@ func (s *btScn) queue(dp, gap int64, fail, start bool) {
 	s.dp, s.gap, s.fail, s.cb = dp, gap, fail, 0
 	pending := s.owed
 	len0, t0 := len(s.ch), s.now()
-	if start {
-		s.b.Start()
-	} else {
-		s.b.Queue(context.Background())
-	}
+	ret := s.call(func() {
+		if start {
+			s.b.Start()
+		} else {
+			s.b.Queue(context.Background())
+		}
+	})
 	t1, len1 := s.now(), len(s.ch)
+	if !ret {
+		s.lines = append(s.lines, map[string]any{"ev": "blocked", "call": "queue", "len0": len0, "len1": len1})
+		s.cut = true
+		return
+	}
 	line := map[string]any{"ev": "queue", "dp": dp, "gap": gap, "err": fail, "t0": t0, "t1": t1, "cb": s.cb,
 		"cbnow": s.cbNow, "len0": len0, "len1": len1, "start": start}
 	if s.cb == 0 {
@@ -155,8 +174,13 @@ func (s *btScn) force() {
 		return
 	}
 	len0, t0 := len(s.ch), s.now()
-	_ = s.b.Force(context.Background())
+	ret := s.call(func() { _ = s.b.Force(context.Background()) })
 	t1, len1 := s.now(), len(s.ch)
+	if !ret {
+		s.lines = append(s.lines, map[string]any{"ev": "blocked", "call": "force", "len0": len0, "len1": len1})
+		s.cut = true
+		return
+	}
 	s.keep(map[string]any{"ev": "force", "t0": t0, "t1": t1, "len0": len0, "len1": len1}, s.owed, t1)
 	s.stats["force"]++
 }
